@@ -611,7 +611,8 @@ class Executor:
         if p[0] == 'nop':
             return
         if p[0] == 'assign':
-            v = self.rvalue(fr, p[2])
+            dty = fr.func.locals.get(p[1][0]) if not p[1][1] else None
+            v = self.rvalue(fr, p[2], dty)
             self.write_place(fr, p[1], v)
             return
         raise Unsupported(f'statement {st}')
@@ -777,7 +778,7 @@ class Executor:
             return cm
         raise Unsupported(f'constant {txt!r}')
 
-    def rvalue(self, fr, rv):
+    def rvalue(self, fr, rv, dest_ty=None):
         k = rv[0]
         if k == 'use':
             return self.operand(fr, rv[1])
@@ -805,7 +806,7 @@ class Executor:
             return self.cast(self.operand(fr, rv[1]), rv[2], rv[3])
         if k == 'discriminant':
             v = self.read_place(fr, rv[1])
-            return self.discriminant(v)
+            return self.discriminant(v, dest_ty)
         if k == 'len':
             v = self.read_place(fr, rv[1])
             return usize(self.length_of(v))
@@ -818,15 +819,21 @@ class Executor:
         if k == 'adt':
             head, names, ops = rv[1], rv[2], rv[3]
             vals = [self.operand(fr, o) for o in ops]
-            return self.make_adt(head, names, vals)
+            return self.make_adt(head, names, vals, dest_ty)
         raise Unsupported(f'rvalue {rv}')
 
-    def make_adt(self, head, names, vals):
+    def make_adt(self, head, names, vals, dest_ty=None):
         h = re.sub(r'::<.*?>(?=::|$| )', '', head).strip()
         h = re.sub(r'<.*>', '', h)
         parts = h.split('::')
         tyname = parts[-1]
         variant = None
+        if len(parts) == 1 and dest_ty:
+            # bare variant name (`_0 = Greater;`): the enum is the destination's type
+            dt = re.sub(r'<.*', '', dest_ty).split('::')[-1].strip()
+            from models import STD_ENUMS
+            if (dt in STD_ENUMS and tyname in STD_ENUMS[dt]) or (dt in self.prog.enums and tyname in self.prog.enums[dt]):
+                return Agg(dt, tyname, vals)
         if len(parts) >= 2 and parts[-2] in self.known_enums():
             tyname, variant = parts[-2], parts[-1]
         elif tyname in self.known_enums() and len(parts) == 1 and names is None and not vals:
@@ -836,13 +843,22 @@ class Executor:
     def known_enums(self):
         return self.models.enum_names(self.prog)
 
-    def discriminant(self, v):
+    def discriminant(self, v, dest_ty=None):
+        bits, signed, ty = 64, True, 'isize'
+        if dest_ty in INT_TYPES:
+            bits, signed = INT_TYPES[dest_ty]
+            ty = dest_ty
         if isinstance(v, Agg) and v.variant is not None:
             d = self.models.discr(self.prog, v.ty, v.variant)
-            return I(bv(d & ((1 << 64) - 1), 64), True, 'isize')
+            return I(bv(d & ((1 << bits) - 1), bits), signed, ty)
         if isinstance(v, I):
             # field-less enum represented by its discriminant (EnumItem, AutosarVersion, ...)
-            return I(z3.ZeroExt(64 - v.bits, v.e) if v.bits < 64 else v.e, True, 'isize')
+            e = v.e
+            if v.bits < bits:
+                e = z3.ZeroExt(bits - v.bits, e)
+            elif v.bits > bits:
+                e = z3.Extract(bits - 1, 0, e)
+            return I(e, signed, ty)
         raise Unsupported(f'discriminant of {v!r}')
 
     def length_of(self, v):
